@@ -607,15 +607,21 @@ impl ArrayImpl {
         })
     }
 
-    /// Returns the sum of values.
+    /// Returns the sum of the non-null values, or NULL if there is none.
+    ///
+    /// The raw slots under NULLs hold arbitrary values (e.g. the result of `NULL + 5`), so they must
+    /// not take part in the sum.
     pub fn sum(&self) -> DataValue {
+        if self.count() == 0 {
+            return DataValue::Null;
+        }
         match self {
-            Self::Int16(a) => DataValue::Int16(a.raw_iter().sum()),
-            Self::Int32(a) => DataValue::Int32(a.raw_iter().sum()),
-            Self::Int64(a) => DataValue::Int64(a.raw_iter().sum()),
-            Self::Float64(a) => DataValue::Float64(a.raw_iter().sum()),
-            Self::Decimal(a) => DataValue::Decimal(a.raw_iter().sum()),
-            Self::Interval(a) => DataValue::Interval(a.raw_iter().sum()),
+            Self::Int16(a) => DataValue::Int16(a.nonnull_iter().sum()),
+            Self::Int32(a) => DataValue::Int32(a.nonnull_iter().sum()),
+            Self::Int64(a) => DataValue::Int64(a.nonnull_iter().sum()),
+            Self::Float64(a) => DataValue::Float64(a.nonnull_iter().sum()),
+            Self::Decimal(a) => DataValue::Decimal(a.nonnull_iter().sum()),
+            Self::Interval(a) => DataValue::Interval(a.nonnull_iter().sum()),
             _ => panic!("can not sum array"),
         }
     }
